@@ -17,6 +17,8 @@ pub struct Universe {
     pub pk_tickers: BTreeSet<(String, String)>,
     pub slots: BTreeSet<String>,
     pub max_height: u64,
+    /// heights below this one are not observed (chains initialised at a large height)
+    pub min_height: u64,
 }
 
 fn is_hex_of(s: &str, n: usize) -> bool {
@@ -189,10 +191,19 @@ pub fn observe_opts(inst: &mut Inst, u: &Universe, mode: ObsMode, with_traces: b
     };
     q(inst, "eth_blockNumber", json!([]));
     q(inst, "txpool_content", json!([]));
-    for h in 0..=(u.max_height + 2) {
+    let mut big_blocks: Vec<(u64, u64)> = Vec::new();
+    for h in u.min_height..=(u.max_height + 2) {
         let hx = format!("0x{:x}", h);
         q(inst, "eth_getBlockByNumber", json!([hx, false]));
         q(inst, "eth_getBlockByNumber", json!([hx, true]));
+        {
+            let r = inst.call("eth_getBlockTransactionCountByNumber", json!([hx]));
+            if let Some(c) = r.ok().and_then(|v| v.as_str()).and_then(|s| u64::from_str_radix(s.trim_start_matches("0x"), 16).ok()) {
+                if c > 3 {
+                    big_blocks.push((h, c));
+                }
+            }
+        }
         q(inst, "eth_getBlockTransactionCountByNumber", json!([hx]));
         q(inst, "eth_getLogs", json!([{"fromBlock": hx, "toBlock": hx}]));
         if h % 3 == 0 {
@@ -207,6 +218,14 @@ pub fn observe_opts(inst: &mut Inst, u: &Universe, mode: ObsMode, with_traces: b
         }
         for i in 0..3u64 {
             q(inst, "eth_getTransactionByBlockNumberAndIndex", json!([h, i]));
+        }
+    }
+    // blocks with many transactions: the indices around the end and around one-byte boundaries
+    for (h, c) in big_blocks {
+        for i in [c - 1, c, 254, 255, 256, 257] {
+            if i >= 3 && i <= c {
+                q(inst, "eth_getTransactionByBlockNumberAndIndex", json!([h, i]));
+            }
         }
     }
     for hash in &u.hashes {
